@@ -26,6 +26,7 @@ RULE = (
     "(True == 1) are excluded as the property says. API level: constrain_value with is_instance / is_value / "
     "is_truthy constraints closed under and/or/invert on generated Values. Non-trivial = the condition splits the "
     "inhabitants (both branches reached) or a branch is inferred Never (distinct by (T, cond))."
+    ' The typing grammar includes the Unpack spelling of variadic tuples (tuple[X, Unpack[tuple[Y, ...]]] and suffix / three-part forms) and subclasses of the promoted numeric types.'
 )
 ASSUMPTIONS = [
     "membership model pv/member.py; Unknown verdicts are skipped",
